@@ -796,7 +796,7 @@ def compare(ctx, c, route, res, mtext, with_rest, corr="corr:resolve"):
 
 
 def run(ctx):
-    n = 1800 if ctx.quick() else 12000
+    n = 1500 if ctx.quick() else 12000
     cases = gen_cases(ctx, n)
     prepared, exprs, index = [], [], {}
     skipped = 0
@@ -837,7 +837,7 @@ def run(ctx):
             compare(ctx, c, "container", p["B"], out[index[p["exprB"]]], False)
         else:
             ctx.notes["container_reader_not_constructed"] = ctx.notes.get("container_reader_not_constructed", 0) + 1
-    run_layouts(ctx, 500 if ctx.quick() else 4000)
+    run_layouts(ctx, 400 if ctx.quick() else 4000)
     ctx.notes["specification_outcomes(schemaless route)"] = hist
     ctx.notes["schemaless_equal_schema_shortcut"] = shortcuts
     for c, p in prepared[len(WITNESSES) * 2::max(1, len(prepared) // 5)]:
